@@ -218,6 +218,20 @@ func handlerProps(r *eng.Run, id string) {
 					}
 					execs++
 				}
+				for pi, prime := range bufferPrimers {
+					if ok, _ := a.FirstValue(); !ok {
+						break // only a complete first value can be "known" to a Buffer; stale state after failures is C14's
+					}
+					for _, mode := range []int{0, 1} {
+						mode := mode
+						buf := &rjson.Buffer{}
+						prime(w, buf)
+						if bad, exp, got := checkTraversal(kind, w, buf, func(int) int { return mode }); bad != "" {
+							r.Violation(eng.Replay{Engine: "handler", Entry: entryOf(kind), Sig: fmt.Sprintf("buffer-primed-on-same-slice#%d/", pi) + bad + "/" + shortSig(w), InputB64: append([]byte(nil), w...), Choices: []int{mode, mode, mode, mode, mode, mode, mode, mode}, Expected: exp, Got: got, Extra: map[string]interface{}{"kind": string(kind), "buffer": "primed"}})
+						}
+						execs++
+					}
+				}
 				if st.Complete {
 					complete++
 				} else {
@@ -340,7 +354,17 @@ var c09Seen = map[string]bool{}
 
 func checkErrorStop(r *eng.Run, kind byte, w []byte, nCalls int, sentinel0 error) int {
 	n := 0
-	cls := fmt.Sprintf("%c|%s|%s|%d", kind, ref.Run(w).Key(), eng.ClassSuffix(w, 1), nCalls)
+	// a class is (reference state, last byte class, number of calls, kinds of the first 8 members)
+	kinds := make([]byte, 0, 8)
+	if nCalls > 0 {
+		traverse(kind, w, nil, func(i int, data []byte) answer {
+			if len(data) > 0 && len(kinds) < 8 {
+				kinds = append(kinds, data[0])
+			}
+			return answer{}
+		})
+	}
+	cls := fmt.Sprintf("%c|%s|%s|%d|%s", kind, ref.Run(w).Key(), eng.ClassSuffix(w, 1), nCalls, kinds)
 	full := !c09Seen[cls]
 	c09Seen[cls] = true
 	for vi, sentinel := range errorVariants(sentinel0) {
@@ -411,6 +435,36 @@ func checkErrorStop(r *eng.Run, kind byte, w []byte, nCalls int, sentinel0 error
 			}
 		}
 	}
+	primed := full && nCalls > 0
+	if primed {
+		// a Buffer that has just been used on this very slice by another entry point (validate
+		// first, then traverse: anything the Buffer remembers about the slice must not change what
+		// happens to the handler's error)
+		for pi, prime := range bufferPrimers {
+			for k := 0; k < nCalls && k < 4; k++ {
+				for _, exactOff := range []bool{false, true} {
+					buf := &rjson.Buffer{}
+					prime(w, buf)
+					calls, _, err := traverse(kind, w, buf, func(i int, data []byte) answer {
+						if i != k {
+							return answer{mode: 0}
+						}
+						off := 0
+						if exactOff {
+							_, off = ref.Run(data).FirstValue()
+						}
+						return answer{mode: 3, n: off, err: sentinel0}
+					})
+					n++
+					if err != sentinel0 || len(calls) != k+1 {
+						r.Violation(eng.Replay{Engine: "handler", Entry: entryOf(kind), Sig: fmt.Sprintf("error-stop/buffer-primed-on-same-slice#%d/k=%d/%s", pi, k, shortSig(w)), InputB64: append([]byte(nil), w...),
+							Expected: fmt.Sprintf("the sentinel error itself, %d handler calls", k+1), Got: fmt.Sprintf("%s (identical=%v), %d calls", errStr(err), err == sentinel0, len(calls)),
+							Extra: map[string]interface{}{"kind": string(kind), "k": k, "primer": pi}})
+					}
+				}
+			}
+		}
+	}
 	sentinel := sentinel0
 	for k := 0; k < nCalls && k < 8; k++ {
 		for _, base := range []int{0, 1} {
@@ -450,6 +504,18 @@ func checkErrorStop(r *eng.Run, kind byte, w []byte, nCalls int, sentinel0 error
 		}
 	}
 	return n
+}
+
+// bufferPrimers use a Buffer on a slice through each other entry point before the call under test
+// sees the same Buffer and the same slice.
+var bufferPrimers = []func(w []byte, b *rjson.Buffer){
+	func(w []byte, b *rjson.Buffer) { rjson.Valid(w, b) },
+	func(w []byte, b *rjson.Buffer) { rjson.SkipValue(w, b) },
+	func(w []byte, b *rjson.Buffer) { rjson.SkipValueFast(w, b) },
+	func(w []byte, b *rjson.Buffer) {
+		rjson.HandleArrayValues(w, rjson.ArrayValueHandlerFunc(func([]byte) (int, error) { return 0, nil }), b)
+		rjson.HandleObjectValues(w, rjson.ObjectValueHandlerFunc(func(_, _ []byte) (int, error) { return 0, nil }), b)
+	},
 }
 
 func replayHandler(id string, rp *eng.Replay) (bool, string) {
